@@ -354,6 +354,13 @@ type Generated struct {
 
 // Program draws a single-module program in the configured fragment.
 func Program(t *rapid.T, c Cfg) *Generated {
+	// Program size is itself drawn, so small programs are frequent and shrinking heads there.
+	switch rapid.IntRange(0, 3).Draw(t, "size") {
+	case 0:
+		c.MaxFns, c.MaxStmts, c.MaxDepth, c.BlockDepth = 1, 2, 2, 1
+	case 1:
+		c.MaxFns, c.MaxStmts, c.MaxDepth, c.BlockDepth = 2, 3, 2, 2
+	}
 	g := &G{t: t, c: c, Feat: map[string]int{}, usesHost: map[string]bool{}}
 	m := &hs.Module{Name: "main"}
 	g.mod = m
